@@ -4,6 +4,7 @@ import (
 	"encoding/json"
 	"flag"
 	"fmt"
+	"hash/fnv"
 	"os"
 	"strings"
 	"time"
@@ -311,6 +312,21 @@ func faultOne(sc *faultScn, idx int) verdict {
 		defer s.close()
 	}
 
+	// which variant of a scenario is exercised depends on the scenario alone, so that a re-run of it alone does the same thing
+	hsh := fnv.New32a()
+	fmt.Fprintf(hsh, "%s/%s/%d/%s", sc.Op, sc.Fault, sc.K, sc.Setting)
+	sel := int(hsh.Sum32() % 6)
+
+	if len(opOpts) > 0 && sel%2 == 1 {
+		// the per-operation timeout is not the first option of the call: an option of another layer precedes it (every layer
+		// skips what is not its own and must go on to the next option)
+		if s.nc != nil {
+			opOpts = append([]util.Option{opoptions.WithFilterType("subtree")}, opOpts...)
+		} else {
+			opOpts = append([]util.Option{opoptions.WithFailedWhenContains([]string{"%% never printed %%"})}, opOpts...)
+		}
+	}
+
 	var res string
 
 	t0 := time.Now()
@@ -402,17 +418,57 @@ func faultOne(sc *faultScn, idx int) verdict {
 	}
 
 	// recovery clause (C05): stall after the last return was written, device catches up, next exchange is correct
-	if sc.Fault == "stall" && class == "timeout" && op.next != nil && sc.K >= sc.LastRet && !op.openIsOp {
+	// ... and for the privilege-aware driver also a stall after ANY return it wrote (the device acts on that line - a mode
+	// change, say - and its answer is what never arrived): nothing half-typed is left behind, so the next command must find
+	// its way from wherever the device really is
+	afterReturn := false
+	if s.nd != nil && sc.Fault == "stall" && class == "timeout" {
+		w := s.pipe.Received()
+		afterReturn = len(w) > 0 && w[len(w)-1] == '\n'
+	}
+
+	if sc.Fault == "stall" && class == "timeout" && op.next != nil && (sc.K >= sc.LastRet || afterReturn) && !op.openIsOp {
 		time.Sleep(5 * time.Millisecond)
 		s.pipe.SetStall(-1)
 		s.pipe.WaitDrained(time.Second)
 		time.Sleep(3 * time.Millisecond)
 
 		switch {
+		case s.nd != nil:
+			s.nd.Channel.TimeoutOps = 2 * time.Second
 		case s.gd != nil:
 			s.gd.Channel.TimeoutOps = 2 * time.Second
 		case s.nc != nil:
 			s.nc.Channel.TimeoutOps = 2 * time.Second
+		}
+
+		reopened := ""
+
+		if sel%3 == 0 {
+			// the usual reaction to a timeout: close, open the same object again. the late answer of the timed-out operation
+			// (it arrived before the close) belongs to the old session and must not be taken for anything of the new one
+			var cerr, oerr error
+
+			finR, panR := withWatchdog(8*time.Second, func() {
+				switch {
+				case s.nc != nil:
+					cerr = s.nc.Close()
+					oerr = s.nc.Open()
+				case s.nd != nil:
+					cerr = s.nd.Close()
+					oerr = s.nd.Open()
+				case s.gd != nil:
+					cerr = s.gd.Close()
+					oerr = s.gd.Open()
+				}
+			})
+			if !finR || panR != nil || oerr != nil {
+				fail(&v, "C05:"+sc.Op+":recovery-reopen", "after time-out at byte %d and catch-up, Close (%v) and Open on the same object: fin=%v panic=%v err=%v", sc.K, cerr, finR, panR, oerr)
+
+				return v
+			}
+
+			reopened = " in a new session on the same object"
 		}
 
 		var nres string
@@ -421,7 +477,7 @@ func faultOne(sc *faultScn, idx int) verdict {
 
 		fin, pan = withWatchdog(8*time.Second, func() { nres, nerr = op.next(s) })
 		if !fin || pan != nil || nerr != nil || nres != op.nextWant {
-			fail(&v, "C05:"+sc.Op+":recovery", "after time-out at byte %d and catch-up, the next exchange returned %q / %v (fin=%v pan=%v), expected %q", sc.K, nres, nerr, fin, pan, op.nextWant)
+			fail(&v, "C05:"+sc.Op+":recovery", "after time-out at byte %d and catch-up, the next exchange%s returned %q / %v (fin=%v pan=%v), expected %q", sc.K, reopened, nres, nerr, fin, pan, op.nextWant)
 		}
 	}
 
